@@ -161,5 +161,5 @@ native_unit("hash_native", "winter-crypto", "crypto", "native/hash_bounded.rs", 
 native_unit("rescue_native", "winter-crypto", "crypto", "native/rescue_bounded.rs", ["C11", "C03", "C04", "C19"],
             ["Rp64_256::{apply_round, apply_permutation, hash_elements, merge, merge_with_int, hash}", "RpJive64_256::{apply_round, apply_permutation, hash_elements, merge, merge_with_int, hash}", "Rp62_248::{hash, hash_elements, merge, merge_with_int} (relations between its public functions)", "the private helpers behind them: apply_sbox, apply_inv_sbox (exponentiation chains), apply_mds (frequency-domain fast path), add_constants"],
             "every round and the 7-round permutation equal the documented Rescue Prime round ARK2[r] + MDS * ((ARK1[r] + MDS * s^7)^(1/7)) computed independently over 128-bit reference arithmetic from the public MDS / ARK constants; hash_elements (and Rp64_256::merge) equal the documented sponge run on the reference permutation; hash(bytes) == hash_elements(encode(bytes)) for every length 0..=130, merge == hash of the concatenation, merge_with_int == hash_elements(seed || split(value)) resp. the Jive compression of the documented block, and merge_with_int is injective on 12 boundary integers (the native counterparts of the Kani contracts that run in the thorough tier)",
-            "NATIVE EXECUTION, not a proof: 16 boundary values (0, 1, p-1, 2^32-1, 2^32, 2^63-1, ...) in every lane together, alone in each lane over zeros and over p-1, 300 seeded states, each x 7 rounds + the permutation; sponges on lists of 0..20 elements x 6 draws",
+            "NATIVE EXECUTION, not a proof: 16 boundary values (0, 1, p-1, 2^32-1, 2^32, 2^63-1, ...) in every lane together, alone in each lane over zeros and over p-1, 300 seeded states, each x 7 rounds + the permutation; sponges on lists of 0..20 elements x 6 draws; lists of 0..=20 elements also typed as quadratic / cubic extension elements (Rp64_256, RpJive64_256: the digest must not depend on the typing)",
             timeout=900)
